@@ -80,9 +80,28 @@ def main():
         },
         'engines': [
             {'name': 'E1 history explorer', 'path': 'mc/explorer.py',
-             'kind_free_text': 'explicit-state BFS over operation histories executed on the real Table, in lock-step with a dense reference model'},
+             'serves_properties': ['C02', 'C03', 'C05', 'C06', 'C07', 'C08', 'C13', 'C16', 'C18', 'C19'],
+             'kind_free_text': 'explicit-state BFS over operation histories executed on the real Table (concrete-state '
+                               'dedup incl. sparse layout), in lock-step with a dense reference model; follow mode for '
+                               'unjudged operations'},
             {'name': 'E2 pipeline enumerator', 'path': 'mc/pipeline.py',
-             'kind_free_text': 'exhaustive cartesian enumeration of short IO pipelines on the real readers/writers'},
+             'serves_properties': ['C01', 'C02', 'C03', 'C04', 'C06', 'C08', 'C09', 'C10', 'C11', 'C13', 'C14',
+                                   'C16', 'C17', 'C18'],
+             'kind_free_text': 'exhaustive cartesian enumeration of short pipelines / operand configurations on the '
+                               'real code, fork pool that turns a crashed worker into a violation'},
+            {'name': 'E3 environment-answer enumerator', 'path': 'mc/props/c12.py',
+             'serves_properties': ['C12'],
+             'kind_free_text': 'scripted random generator patched in at numpy.random.default_rng: every answer the '
+                               'generator could give is enumerated'},
+            {'name': 'E4 fault / mutation enumerator', 'path': 'mc/props/c15.py',
+             'serves_properties': ['C15'],
+             'kind_free_text': 'all single and double structural mutations of written JSON/HDF5 files'},
+            {'name': 'E5 profile state machine', 'path': 'mc/props/c20.py',
+             'serves_properties': ['C20'],
+             'kind_free_text': 'explicit-state BFS on the process-global error profile with hand-driven context '
+                               'managers, against a scoped-stack model'},
+            {'name': 'BIOM 2.1 spec decoder', 'path': 'mc/h5spec.py', 'serves_properties': ['C04'],
+             'kind_free_text': 'independent reader written from the format specification with raw h5py'},
         ],
         'checks': checks,
         'not_applicable': na,
